@@ -1,4 +1,4 @@
-import NfcVerif.Lemmas.NfcDep
+import NfcVerif.Lemmas.NfcDepLive
 /-!
 # C04 - NFC-DEP delivers each payload exactly once, intact, or reports failure
 
@@ -7,20 +7,26 @@ fault script, `run`).  Proofs: `Lemmas/NfcDep.lean`.
 
 Proved here, for every fault script of any length, every fuel, every payload list:
 
+* `dep_exactly_once`           what each side's `exchange()` returned is a prefix of what the other side
+                               passed in (complete, unmodified, in order, nothing twice) - for EVERY
+                               configuration (any DID/NAD/MIU/variant), no hypothesis
+* `dep_success_complete`       a run without exception delivered every payload, both ways
+* `dep_nothing_after_error`    a Target that raised or returned None never delivers or answers again
+* `dep_transaction_at_most_once`  one `send_dep_req_recv_dep_res` makes the peer accept the request
+                               at most once (generic over the peer; the lemma behind `dep_exactly_once`)
 * `dep_frame_bound`            no frame exceeds the LR announced by its receiver
 * `dep_error_kind_initiator`   `Initiator.exchange` fails only with CommunicationError classes,
                                `deactivate` never raises (also against an arbitrary peer:
                                `dep_error_kind_initiator_any_peer`)
 * `dep_error_kind_target`      `Target.exchange` raises only ProtocolError
 * `dep_retransmission_idempotent`  a retransmission, NAK, ATN or corrupted frame never changes
-                               the Target (nothing is accepted or delivered twice)
+                               the Target
 * `dep_codec_roundtrip`        the PDU-level air is justified: decode (encode p) = p
 * counter-examples for the code as found (F20, F26, F27, F40) and the matching
   witnesses for the repaired behaviour.
 
-NOT proved (stated as `ExactlyOnceStatement` / `SingleFaultStatement` below): the
-prefix property of the composed system and recovery from every isolated fault.
-Both are checked only by the correspondence runs and by the oracle on the real code.
+* `dep_single_fault_recovered`  under every script whose faults are `lose`/`corrupt` and at least four
+                               delivered frames apart nothing fails and everything is delivered
 -/
 namespace NfcVerif.C04
 open NfcVerif NfcVerif.NfcDep
@@ -147,25 +153,98 @@ example : (Pdu.dep fMORE 3 (some 3) (some 5) [1, 2, 3]).WF ∧
     encodeFrame true true (.dep fMORE 3 (some 3) (some 5) [1, 2, 3]) = .ok [0xF0, 9, 0xD4, 6, 0x1F, 3, 5, 1, 2, 3] :=
   ⟨⟨by decide, by decide⟩, by decide⟩
 
-/-! ## Exactly once / recovery: statements, counter-examples as found -/
+/-! ## Exactly once, in order, intact -/
 
-/-- FULL STATEMENT (not proved): what each side's `exchange()` returned is a prefix of what the
-other side passed in. -/
-def ExactlyOnceStatement : Prop :=
-  ∀ (c : Cfg) (fuel : Nat) (script : List Fault) (rel : Nat) (pi pt : List Bytes),
-    (run c fuel script rel pi pt).t.got <+: pi ∧ (run c fuel script rel pi pt).gotI <+: pt
+/-- **Safety, full.**  For every configuration (bit rate framing, DID and NAD on either side, equal or
+not, any information unit sizes, any variant of the known defects), every fault script
+`deliver/lose/corrupt/expire` of any length, every fuel, every release mode and all payload lists: the
+payloads returned so far by `Target.exchange` are a prefix of the payloads the Initiator passed to
+`Initiator.exchange`, and the payloads returned by `Initiator.exchange` are a prefix of those the Target
+passed in.  List prefix on whole payloads = each one complete, unmodified, in order, none twice, none
+invented; after an exception the application stops, so nothing follows an error.  Chaining both ways,
+PNI wrap-around (mod 4), retransmission, ATN, NAK are all covered; the Target never sends RTOX. -/
+theorem dep_exactly_once (c : Cfg) (fuel : Nat) (script : List Fault) (rel : Nat) (pi pt : List Bytes) :
+    (run c fuel script rel pi pt).t.got <+: pi ∧ (run c fuel script rel pi pt).gotI <+: pt :=
+  run_prefix c fuel script rel pi pt
 
-/-- FULL STATEMENT (not proved): faults at least six frames apart and no expiry are all recovered. -/
+/-- non-vacuity: a run with chaining both ways, two faults, PNI wrap - both lists delivered -/
+example : (run (cSmall .repaired (some 3)) 50 [.d, .l, .d, .d, .d, .d, .d, .c] 2
+      [[1, 2, 3, 4, 5, 6], [7], [8], [9], [10]] [[0x81, 0x82, 0x83, 0x84, 0x85], [0x86], [0x87], [0x88], [0x89]]).t.got
+    = [[1, 2, 3, 4, 5, 6], [7], [8], [9], [10]] := by
+  decide +kernel
+
+/-- When the DIDs agree and `Initiator.exchange` never raised, everything was delivered: the Target got
+exactly the Initiator's list and the Initiator got the matching answers. -/
+theorem dep_success_complete (c : Cfg) (hdid : c.tdid = c.idid) (fuel : Nat) (script : List Fault) (rel : Nat)
+    (pi pt : List Bytes) (hok : (run c fuel script rel pi pt).errI = none) :
+    (run c fuel script rel pi pt).t.got = pi ∧ (run c fuel script rel pi pt).gotI = pt.take pi.length :=
+  run_complete c hdid fuel script rel pi pt hok
+
+example : (run (cSmall .repaired none) 50 [.d, .c] 0 [[1, 2, 3, 4, 5, 6]] [[0x81]]).errI = none := by decide +kernel
+
+/-- After `Target.exchange` raised, returned None or the application stopped, no frame changes the
+Target or is answered: nothing is delivered after an error. -/
+theorem dep_nothing_after_error (c : Cfg) (t : TState) (h : t.status ≠ .running) (rx : Rx) :
+    tRx c t rx = (t, none) := by
+  cases rx with
+  | corrupt => rfl
+  | frame p => simp [tRx, h]
+
+example : (⟨some 1, .receiving [], none, [], [[1]], .raised .protocol⟩ : TState).status ≠ .running := by decide
+
+/-- The lemma behind `dep_exactly_once`, for ANY peer state machine `P`: if `A` (request not yet
+accepted) is closed under ATN and accepting `req` leads from `A` to `B` with answer `r1`, and in `B`
+a retransmitted `req`, a NAK and an ATN keep `B` and return `r1` or nothing, then for every fault script
+and fuel `transact` (= `send_dep_req_recv_dep_res` + RTOX handling) ends in `A` without a result or
+in `B`, and a result is exactly `r1`: the request is accepted at most once and the answer is the
+answer to this request. -/
+theorem dep_transaction_at_most_once {σ : Type} (P : Peer σ) (c : Cfg) (A B : σ → Prop) (r1 : Option Pdu)
+    (pni : Nat) (req : Pdu) (H : TXHyp P c A B r1 pni req)
+    (hnt : ∀ res, r1 = some res → res.fmt? ≠ some fTOX) (fuel : Nat) (a : Air σ) (h : A a.peer) :
+    TXPost A B r1 (transact P c fuel pni a req) :=
+  transact_tx H hnt fuel a h
+
+/-! ## Recovery: statement, counter-examples as found -/
+
+/-- **Recovery, full.**  `sparse K 0 script`: the script contains only `lose`/`corrupt` faults (no
+expiry) and after every fault the next `K` frames are delivered.  For every `K ≥ 4` - one fault per
+recovery, any number of faults in the conversation, at any frame position: request, response, ATN
+exchange excluded only by the spacing - and for every configuration with the same DID on both sides,
+ATN carrying the DID and the ACK accepted after NAK (as repaired, F26/F27), frames that fit the length
+byte and non-zero information units: no exception is raised, `Target.exchange` returned exactly the
+Initiator's payloads and the Initiator got the matching answers.  Any payload sizes (chaining both
+ways), any number of exchanges (PNI wraps); `F + 2` is the model's loop bound, payloads `≤ F + 1`. -/
+theorem dep_single_fault_recovered (c : Cfg) (L : LiveCfg c) (K F : Nat) (hK : 4 ≤ K) (script : List Fault) (rel : Nat)
+    (pi pt : List Bytes) (hs : sparse K 0 script = true) (hlen : pi.length ≤ pt.length)
+    (hpi : ∀ p ∈ pi, p ≠ [] ∧ p.length ≤ F + 1) (hpt : ∀ p ∈ pt, p ≠ [] ∧ p.length ≤ F + 1) :
+    (run c (F + 2) script rel pi pt).errI = none
+    ∧ (run c (F + 2) script rel pi pt).t.got = pi
+    ∧ (run c (F + 2) script rel pi pt).gotI = pt.take pi.length := by
+  have h := run_live c L K F hK script rel pi pt hs hlen hpi hpt
+  exact ⟨h, run_complete c L.did (F + 2) script rel pi pt h⟩
+
+/-- non-vacuity: an activated configuration with DID and NAD, a script with three isolated faults -/
+example : LiveCfg (cAct .repaired true 0 2 (some 3) (some 5)) ∧
+    sparse 4 0 [.l, .d, .d, .d, .d, .c, .d, .d, .d, .d, .d, .l] = true :=
+  ⟨⟨rfl, rfl, rfl, by decide, by decide, by decide, by decide⟩, by decide⟩
+
+/-- the statement specialised to the small configuration, used for the as-found counter-example -/
 def SingleFaultStatement (v : Variant) : Prop :=
-  ∀ (did : Option Nat) (script : List Fault) (pi pt : List Bytes),
-    (∀ i j, i < j → j < script.length → script[i]? ≠ some .d → script[j]? ≠ some .d → i + 6 < j) →
-    .x ∉ script → pi.length = pt.length → (∀ p ∈ pi ++ pt, p ≠ []) →
-    (run (cSmall v did) (script.length + 1000) script 0 pi pt).errI = none
+  ∀ (did : Option Nat) (F : Nat) (script : List Fault) (pi pt : List Bytes),
+    sparse 4 0 script = true → pi.length ≤ pt.length →
+    (∀ p ∈ pi, p ≠ [] ∧ p.length ≤ F + 1) → (∀ p ∈ pt, p ≠ [] ∧ p.length ≤ F + 1) →
+    (run (cSmall v did) (F + 2) script 0 pi pt).errI = none
+
+theorem dep_single_fault_statement_repaired : SingleFaultStatement .repaired := by
+  intro did F script pi pt hs hlen hpi hpt
+  have L : LiveCfg (cSmall .repaired did) :=
+    ⟨rfl, rfl, rfl, by cases did <;> simp [cSmall, flag], by cases did <;> simp [cSmall, flag], by simp [cSmall], by simp [cSmall]⟩
+  exact run_live (cSmall .repaired did) L 4 F (by decide) script 0 pi pt hs hlen hpi hpt
 
 /-- As found (F26) one lost frame is never recovered when a DID is used ... -/
 theorem dep_no_recovery_with_did_counterexample : ¬ SingleFaultStatement .asFound := by
   intro h
-  have := h (some 3) [.l] [[1, 2]] [[0x81]] (by intro i j hij hj; simp at hj; omega) (by decide) rfl (by decide)
+  have := h (some 3) 48 [.l] [[1, 2]] [[0x81]] (by decide) (by decide) (by decide) (by decide)
   revert this
   decide +kernel
 
